@@ -51,6 +51,13 @@ EXC = {'KeyError': KeyError, 'ValueError': ValueError, 'TaskError': TaskError,
        'SystemExit': SystemExit, 'OddBase': OddBase}
 
 
+def _raise_deep(n, cls, tag):
+    # the exception is raised `n` frames down: a very deep traceback
+    if n <= 0:
+        raise cls(tag)
+    _raise_deep(n - 1, cls, tag)
+
+
 def task(desc):
     """executed by the worker under test; logs the fact that it ran *before*
     doing anything (the log is the side effect the oracles look for)"""
@@ -76,6 +83,8 @@ def task(desc):
                 time.sleep(desc['dur'])
             return ['pid', tag, os.getpid()]
         if kind in ('exc', 'base'):
+            if desc.get('depth'):
+                _raise_deep(desc['depth'], EXC[desc['exc']], tag)
             raise EXC[desc['exc']](tag)
         if kind == 'sysexit':
             sys.exit(desc.get('code', 3))
